@@ -193,8 +193,21 @@ func Pool(profile string) []Decl {
 }
 
 // Theme returns a sub-pool of the "order" pool for 3- and 4-way interactions
-// inside one feature: "lists", "disjunctions", "bounds", "closedness".
+// inside one feature: "lists", "disjunctions", "bounds", "closedness",
+// "comprehensions".
 func Theme(name string) []Decl {
+	if name == "comprehensions" {
+		// pattern constraints meeting fields (regular, optional, required) that
+		// only come into existence through a comprehension
+		return []Decl{
+			f("a", "", st(in("[string]", "int"))), f("a", "", st(in("[string]", ">5"))), f("a", "", st(in(`[=~"^x"]`, "int"))),
+			f("a", "", st(raw("if true {x!: string}", ""))), f("a", "", st(raw("if true {x?: int}", ""))), f("a", "", st(raw("if true {x: 3}", ""))),
+			f("a", "b", st(raw("if b {x?: int}", ""))), f("a", "", st(raw("for k, v in {x: 7} {(k): v}", ""))),
+			f("a", "", st(in("x", "7"))), f("a", "", st(in("x", "3"))), f("a", "", st(in("x?", "int"))), f("a", "", st(in("x!", "int"))),
+			f("a", "", st(in("x", `"s"`))), in("b", "true"), f("a", "", st(raw("...", ""))), f("a", "", Val{Inner: []Decl{in("[string]", "int")}, Wrap: "close(%s)"}),
+			f("c", "a", t("a.x")), f("c", "a", t("a & {x: 9}")),
+		}
+	}
 	var out []Decl
 	for _, d := range Pool("order") {
 		s := d.String()
